@@ -294,7 +294,7 @@ MC_INIT
     // (6) memcmp on longer blocks: n 0..72 x 8x8 alignments x position of the first difference x which side is larger
     //     (0x7f vs 0x80 and 0x00 vs 0xff: a signed-char comparison gets these wrong); bytes after the first
     //     difference are ordered the other way round
-    mc::add_check("memcmp_every_alignment", [] {
+    auto body_memcmp_every_alignment = [] {
         init_arenas();
         int c0 = mc::choose(73 * 8);
         size_t n = c0 / 8;
@@ -335,6 +335,13 @@ MC_INIT
         PL = AFTER;
         mc::more_cases(calls - 1, calls - 1);
         flush_notes();
+    };
+    mc::add_check("memcmp_every_alignment", body_memcmp_every_alignment);
+    // the same with the const operands of every call mapped read-only during the call
+    mc::add_check("memcmp_every_alignment.readonly", [body_memcmp_every_alignment] {
+        RO_ON = true;
+        body_memcmp_every_alignment();
+        RO_ON = false;
     });
 
     // (7) memchr/memrchr on longer blocks: n 0..72 x alignment x where the byte occurs
@@ -381,7 +388,7 @@ MC_INIT
     });
 
     // (8) LARGE blocks: lengths around 128, 256, 1000 (thorough: around 32768, 65536, 70000); see str_large
-    mc::add_check("mem_large", [] {
+    auto body_mem_large = [] {
         init_arenas();
         std::vector<size_t> LS = large_lengths();
         int c0 = mc::choose((int)LS.size() * 2 * 5);
@@ -463,6 +470,13 @@ MC_INIT
         if (calls)
             mc::more_cases(calls - 1, calls - 1);
         flush_notes();
+    };
+    mc::add_check("mem_large", body_mem_large);
+    // the same with the const operands of every call mapped read-only during the call
+    mc::add_check("mem_large.readonly", [body_mem_large] {
+        RO_ON = true;
+        body_mem_large();
+        RO_ON = false;
     });
 
     // (9) HISTORY: every mem* function called 65600 times in one process, see str_history
